@@ -26,6 +26,7 @@ OtherC(c, neg, esc, ci) == [c |-> c, op |-> "", neg |-> neg, esc |-> esc, ci |->
 Ctors ==
   {BinC(op) : op \in BaseOps \cup PgOps \cup LiteOps \cup CustomOps}
   \cup {OtherC("not", FALSE, FALSE, FALSE), OtherC("cast", FALSE, FALSE, FALSE), OtherC("fn", FALSE, FALSE, FALSE), OtherC("asenum", FALSE, FALSE, FALSE)}
+  \cup {OtherC("fn1", FALSE, FALSE, FALSE), OtherC("fn1", TRUE, FALSE, FALSE)}        \* one-argument GREATEST / LEAST (MAX / MIN on SQLite)
   \cup {OtherC("between", n, FALSE, FALSE) : n \in BOOLEAN}
   \cup {OtherC("in", n, FALSE, FALSE) : n \in BOOLEAN}
   \cup {OtherC("isnull", n, FALSE, FALSE) : n \in BOOLEAN}
@@ -34,7 +35,7 @@ Ctors ==
 RepCtors ==
   {BinC(op) : op \in {"And", "Or", "Equal", "Add", "Mul", "Div", "BitOr", "LShift", "Is", "PgConcatenate", "PgContains", "SqliteGlob", "Custom:||", "Custom:XOR"}}
   \cup {OtherC("not", FALSE, FALSE, FALSE), OtherC("between", FALSE, FALSE, FALSE), OtherC("like", FALSE, TRUE, FALSE),
-        OtherC("in", TRUE, FALSE, FALSE), OtherC("cast", FALSE, FALSE, FALSE), OtherC("asenum", FALSE, FALSE, FALSE)}
+        OtherC("in", TRUE, FALSE, FALSE), OtherC("cast", FALSE, FALSE, FALSE), OtherC("asenum", FALSE, FALSE, FALSE), OtherC("fn1", FALSE, FALSE, FALSE)}
 
 Arity(c) == CASE c.c = "bin" -> 2 [] c.c = "between" -> 3 [] c.c = "in" -> 2 [] OTHER -> 1
 Col(n) == [k |-> "col", n |-> n]
@@ -50,6 +51,7 @@ Build(c, xs) ==
     [] c.c = "cast" -> [k |-> "cast", e |-> xs[1], ty |-> "integer"]
     [] c.c = "asenum" -> [k |-> "asenum", e |-> xs[1], ty |-> "mood"]
     [] c.c = "fn" -> [k |-> "fn", f |-> "Max", args |-> <<xs[1]>>]
+    [] c.c = "fn1" -> [k |-> "fn", f |-> IF c.neg THEN "Least" ELSE "Greatest", args |-> <<xs[1]>>]
 
 L1 == <<Col("a"), Col("b"), IntV("3")>>
 L2 == <<Col("d"), IntV("5"), Col("f")>>
